@@ -3,6 +3,13 @@
 (* of RoundTrip is the request on the held transport (realised by a gated          *)
 (* resolver underneath the transport's dialer); the second getTransport after a     *)
 (* failed request has no hook and runs with priority.                              *)
+(* The reaper is not bound to quiescent points: a pass may also come between the     *)
+(* failed request and the second getTransport of a caller (q = FALSE in its record).  *)
+(* The replay realises every run of consecutive critical sections                    *)
+(* (call | get_again | reaper) as a queue on the transports mutex itself, handed over  *)
+(* from one to the next without a gap (see transport.go), so that "reaper directly     *)
+(* after the insert" and "reaper directly before the second getTransport" are real     *)
+(* schedules of the code and not only of the model.                                   *)
 EXTENDS TransportCache, Sequences, SequencesExt, Json
 
 VARIABLE hist
@@ -27,6 +34,7 @@ GNext ==
   \/ \E p \in Procs : Quiet /\ SendFail(p) /\ hist' = Append(hist, Rec("send_fail", p, loc[p].name))
   \/ \E p \in Procs, n \in Names : Quiet /\ Call(p, n) /\ hist' = Append(hist, Rec("call", p, n))
   \/ Quiet /\ ~Terminated /\ Reaper /\ hist' = Append(hist, Rec("reaper", "", ""))
+  \/ ~Quiet /\ Reaper /\ hist' = Append(hist, Rec("reaper", "", ""))
   \/ \E n \in Names : Quiet /\ ~Terminated /\ Age(n) /\ hist' = Append(hist, Rec("age", "", n))
 
 GSpec == GInit /\ [][GNext]_gvars
